@@ -13,6 +13,7 @@ import Rooc.Proofs.Cert
 import Rooc.Proofs.SolverWrap
 import Rooc.Proofs.ComposeNames
 import Rooc.Proofs.ComposeSimplexExamples
+import Rooc.Proofs.ComposeSlow
 import Mathlib.Data.Rat.Floor
 namespace Rooc.Props.C04
 open Rooc Rooc.Cert Rooc.SolverWrap
@@ -229,7 +230,29 @@ attribute [local instance] exactArith
 `y` : any feasible point of the standard form `s` of `lm` (C13 `StdFeasible`: one value per column, all `≥ 0`, every
 equality holds), `value` : whatever is reported as objective.  Then the by-name assignment names every variable of
 `lm` exactly once, `value_of` returns for the `i`-th variable the `i`-th component of `preimage lm y`, that point
-satisfies every row and every declared bound of `lm`, and its objective is the one the standard form records. -/
+satisfies every row and every declared bound of `lm`, and its objective is the one the standard form records.
+SHARP FORM of the name hypothesis: only the variables that stay ONE column (`keep (flags lm) lm.vars`: the non-free,
+`NonNegativeReal` ones) need a `plainName`; a free variable `v` occurs only as `$p‹v›` / `$m‹v›` and may be called anything
+(even `$sl_x`).  The counterexample `asLpAssignment_prefix_collision_counterexample` is exactly a kept variable. -/
+theorem asLpSolution_feasible_kept_partial {lm : LinModel (Ext K)} (hW : WF lm) (hnd : lm.vars.Nodup)
+    (hpl : (StdLayout.keep (StdSpec.flags lm) lm.vars).all plainName = true)
+    {s : StdModel (Ext K)} (hs : Standardize.standardize lm = .ok s)
+    (y : List K) (hF : StdFeasible s y) (value : Ext K) :
+    ((asLpSolution s.vars (y.map Ext.fin) value).assignment.map (·.1)).Perm lm.vars ∧
+    (∀ i (hi : i < lm.vars.length),
+      (asLpSolution s.vars (y.map Ext.fin) value).valueOf (lm.vars[i]) =
+        some (Val.real (Ext.fin ((preimage lm y).getD i 0)))) ∧
+    LinFeasible lm (preimage lm y) ∧ stdObj s y = obj lm (preimage lm y) := by
+  have hpl' : ∀ v ∈ StdLayout.keep (StdSpec.flags lm) lm.vars, ComposeNames.plain v = true :=
+    fun v hv => (List.all_eq_true.mp hpl) v hv
+  obtain ⟨hperm, hval⟩ := ComposeNames.asLp_standardize_kept lm hW hnd hpl' hs y hF.len
+  refine ⟨hperm, fun i hi => ?_, Rooc.StdMain.bwd lm hW hs y hF⟩
+  rw [valueOf_first_duplicate_wins]
+  show (List.find? _ (asLpAssignment s.vars (y.map Ext.fin))).map _ = _
+  rw [hval i hi]
+  rfl
+
+/-- the same under the simpler hypothesis that EVERY variable of `lm` has a plain name. -/
 theorem asLpSolution_feasible_partial {lm : LinModel (Ext K)} (hW : WF lm) (hnd : lm.vars.Nodup)
     (hpl : lm.vars.all plainName = true) {s : StdModel (Ext K)} (hs : Standardize.standardize lm = .ok s)
     (y : List K) (hF : StdFeasible s y) (value : Ext K) :
@@ -237,14 +260,10 @@ theorem asLpSolution_feasible_partial {lm : LinModel (Ext K)} (hW : WF lm) (hnd 
     (∀ i (hi : i < lm.vars.length),
       (asLpSolution s.vars (y.map Ext.fin) value).valueOf (lm.vars[i]) =
         some (Val.real (Ext.fin ((preimage lm y).getD i 0)))) ∧
-    LinFeasible lm (preimage lm y) ∧ stdObj s y = obj lm (preimage lm y) := by
-  have hpl' : ∀ v ∈ lm.vars, ComposeNames.plain v = true := fun v hv => (List.all_eq_true.mp hpl) v hv
-  obtain ⟨hperm, hval⟩ := ComposeNames.asLp_standardize lm hW hnd hpl' hs y hF.len
-  refine ⟨hperm, fun i hi => ?_, Rooc.StdMain.bwd lm hW hs y hF⟩
-  rw [valueOf_first_duplicate_wins]
-  show (List.find? _ (asLpAssignment s.vars (y.map Ext.fin))).map _ = _
-  rw [hval i hi]
-  rfl
+    LinFeasible lm (preimage lm y) ∧ stdObj s y = obj lm (preimage lm y) :=
+  asLpSolution_feasible_kept_partial hW hnd
+    (List.all_eq_true.mpr fun v hv =>
+      (List.all_eq_true.mp hpl) v ((ComposeNames.keep_sublist _ _).subset hv)) hs y hF value
 
 /-- **the `LpSolution` of `solve_real_lp_problem_slow_simplex`, end to end at exact arithmetic** (C13 ∘ C14 ∘
 `as_lp_solution`): when the loop stops `Finished` on a canonical feasible tableau of the standard form of a well-formed
@@ -270,6 +289,36 @@ theorem slow_simplex_solution_exact_partial {lm : LinModel (Ext K)} (hW : WF lm)
     (Ext.fin (Tableau.optimalValue (Tableau.solve (0:K) stallExtra limit prefer T).final))
   exact ⟨_, hfeas, hopt, by rw [← hvalue]; rfl, hperm, hval⟩
 
+/-! #### the diffed whole-function model IS this composition
+
+`SlowSimplex.solveReal` (`Rooc/SlowSimplex.lean`) is the model of the entry point `solve_real_lp_problem_slow_simplex`
+that `./check C04` / `C05` compare bit for bit with the real function on every generated model.  The three lemmas below
+(every number type) say that its answers are exactly the stage-wise events the theorems above and in C05 speak about. -/
+
+/-- a returned `LpSolution` = the three stages succeeded, the loop stopped `Finished`, and the solution is
+`as_lp_solution` of `variables_values` / `optimal_value` of the final tableau under the standard form's names. -/
+theorem slow_simplex_entry_ok_iff {α : Type} [Arith α] (tol : α) (se p1 : Nat) (lm : LinModel α) (limit : Int)
+    (sol : Solution α) :
+    SlowSimplex.solveReal tol se p1 lm limit = .ok sol ↔
+      ∃ sm T, Standardize.standardize lm = .ok sm ∧ Tableau.intoTableau tol se p1 sm = .ok T ∧
+        (Tableau.solve tol se limit.toNat [] T).result = .ok () ∧
+        sol = asLpSolution sm.vars (Tableau.variablesValues (Tableau.solve tol se limit.toNat [] T).final)
+          (Tableau.optimalValue (Tableau.solve tol se limit.toNat [] T).final) :=
+  SlowSimplex.solveReal_ok_iff tol se p1 lm limit sol
+
+/-- `Err(Unbounded)` exactly when the loop reports it. -/
+theorem slow_simplex_entry_unbounded_iff {α : Type} [Arith α] (tol : α) (se p1 : Nat) (lm : LinModel α) (limit : Int) :
+    SlowSimplex.solveReal tol se p1 lm limit = .err "Unbounded" ↔
+      ∃ sm T, Standardize.standardize lm = .ok sm ∧ Tableau.intoTableau tol se p1 sm = .ok T ∧
+        (Tableau.solve tol se limit.toNat [] T).result = .error .unbounded :=
+  SlowSimplex.solveReal_unbounded_iff tol se p1 lm limit
+
+/-- `Err(Infeasible)` exactly when `into_tableau` reports `Infesible`. -/
+theorem slow_simplex_entry_infeasible_iff {α : Type} [Arith α] (tol : α) (se p1 : Nat) (lm : LinModel α) (limit : Int) :
+    SlowSimplex.solveReal tol se p1 lm limit = .err "Infeasible" ↔
+      ∃ sm, Standardize.standardize lm = .ok sm ∧ Tableau.intoTableau tol se p1 sm = .error .infeasible :=
+  SlowSimplex.solveReal_infeasible_iff tol se p1 lm limit
+
 /-! #### non-vacuity (`K = ℚ`) -/
 section examples
 attribute [local instance 2000] fieldExact
@@ -283,6 +332,15 @@ example : (asLpSolution exFreeStd.vars ([0, 3, 0].map Ext.fin) (Ext.fin (-3))).v
     [0, 3, 0] exFree_point (Ext.fin (-3))
   rw [exFree_preimage] at hval hfeas
   exact ⟨by simpa [exFree] using hval 0 (by simp [exFree]), hfeas⟩
+
+/-- the SHARP name hypothesis at work: the free variable is CALLED `$sl_y` (an internal prefix).  No kept variable
+exists, so `asLpSolution_feasible_kept_partial` applies, and `as_lp_solution` hands back `$sl_y = −3`. -/
+example : (asLpSolution exFreeSlStd.vars ([0, 3, 0].map Ext.fin) (Ext.fin (-3))).valueOf "$sl_y" =
+    some (Val.real (Ext.fin (-3 : ℚ))) := by
+  obtain ⟨_, hval, _, _⟩ := asLpSolution_feasible_kept_partial exFreeSl_wf (by simp [exFreeSl])
+    (by rw [exFreeSl_flags]; simp [exFreeSl, StdLayout.keep]) exFreeSl_std [0, 3, 0] exFreeSl_point (Ext.fin (-3))
+  rw [exFreeSl_preimage] at hval
+  simpa [exFreeSl] using hval 0 (by simp [exFreeSl])
 
 /-- `slow_simplex_solution_exact_partial` applies to `min −x s.t. x ≤ 2, x ≥ 0` (tableau `exT`, one pivot): the
 hypotheses are jointly satisfiable. -/
